@@ -75,6 +75,20 @@ CHECKS = {
             "instance state (restore-from-snapshot is cross-checked against history replay during the run). States that "
             "violate the invariant are reported once and not expanded.",
             "DESIGN.md §3 C07"),
+    "C08": ("bounded-exhaustive exploration of (signature, context, call) against Python's own binding "
+            "(inspect.signature(reference).bind) plus exhaustive consumer scripts for generator / coroutine wrappers",
+            "Every signature of <= 3 (quick) / 4 (thorough) parameters over positional-only / positional-or-keyword / "
+            "keyword-only x required / default / Param(alias_from) / Param(default, alias_from) / private, with and without "
+            "*args:int and **kwargs:int, in 5 contexts (function, instance / class / static method, class decorator), called "
+            "with every positional count 0..n+1 x every subset (<= 3 / 4) of keyword names (names, aliases, private names, an "
+            "unknown name) x value patterns (exact, convertible, one invalid slot): when Python binds the call the body must "
+            "receive exactly that binding with int-converted values, an invalid value must raise ParseError before the body. "
+            "Generators: sync / async x lazy / eager x 3 recording bodies x every consumer script over {next, send('5'), "
+            "send(7), send('x'), send(None)} up to length 4 / 5, compared step by step with the undecorated body; plain and "
+            "coroutine functions: argument x return value conversion table.",
+            "Trusted: Python's inspect.signature binding on the reference function and int() as the ideal conversion. Calls "
+            "Python does not bind, and calls naming one parameter through two spellings, are executed but not judged.",
+            "DESIGN.md §3 C08"),
     "C16": ("explicit-state exploration (DFS with state dedup) of register/resolve histories on the real "
             "TypeRegistry against a cache-free reference model",
             "All histories of register/resolve operations up to depth 4 (quick) / 5 (thorough) over a menu of "
